@@ -1,5 +1,6 @@
 import re, subprocess, os, sys, concurrent.futures
-src=open('/verif/coq/model/Proto.v').read()
+ROOT=os.environ.get('C17ROOT','/verif/coq')
+src=open(ROOT+'/model/Proto.v').read()
 blk=src[src.index("Inductive op :="):src.index("Fixpoint lookupZ")]
 ctors={}
 for line in blk.split('\n'):
@@ -57,5 +58,5 @@ if __name__=='__main__':
     body=hdr+tac+lemma(name, extra, '  all: let n := numgoals in idtac "REMAINING" n.\n  Show.\nAbort.')
     f='/tmp/c17/ops/%s.v'%name
     open(f,'w').write(body)
-    p=subprocess.run(['timeout','150','coqc','-q','-Q','/verif/coq','SC3',f],capture_output=True,text=True)
+    p=subprocess.run(['timeout','150','coqc','-q','-Q',ROOT,'SC3',f],capture_output=True,text=True)
     print((p.stdout+p.stderr)[-int(os.environ.get('TAIL','5000')):])
